@@ -360,6 +360,7 @@ class _OneToManyDP(_DependencyProcessor):
                     (before_delete, child_pre_updates),
                     (child_pre_updates, parent_deletes),
                     (child_pre_updates, child_deletes),
+                    (child_post_updates, parent_deletes),
                 ]
             )
         else:
@@ -675,6 +676,7 @@ class _ManyToOneDP(_DependencyProcessor):
                     (before_delete, parent_pre_updates),
                     (parent_pre_updates, child_deletes),
                     (parent_pre_updates, parent_deletes),
+                    (parent_post_updates, child_deletes),
                 ]
             )
         else:
